@@ -146,6 +146,36 @@ def corrupt_overwrite(run):
     return None
 
 
+def torn_claimed_ok(run):
+    """a write through a short sink that lost its tail is reported as Ok with the full length"""
+    for e in run:
+        if e.get("op") == "write_through" and e.get("ok") and e.get("enc_len", 0) >= 2 and isinstance(e.get("sink"), list):
+            e["sink"] = list(e["sink"])[:-1]
+            e["encp"] = list(e["encp"])[:-1]
+            e["sink_len"] = e["sink_len"] - 1
+            return run
+    return None
+
+
+def sink_not_prefix(run):
+    """the bytes that reached a short sink are not a prefix of the encoding"""
+    for e in run:
+        if e.get("op") == "write_through" and isinstance(e.get("sink"), list) and len(e["sink"]) >= 1:
+            e["sink"] = list(e["sink"])
+            e["sink"][-1] = (e["sink"][-1] + 1) % 256
+            return run
+    return None
+
+
+def err_claims_more(run):
+    """a failed write claims more bytes than the sink accepted"""
+    for e in run:
+        if e.get("op") == "write_through" and not e.get("ok"):
+            e["n"] = e["sink_len"] + 1
+            return run
+    return None
+
+
 def _pick_with(files, key, needle):
     """first trace file of a family that contains an event of the given kind"""
     for p in sorted(f for f in files if key in os.path.basename(f)):
@@ -219,6 +249,9 @@ def run(ctx):
         ("wire-rd-range", '"op":"vlen"', _bump("vlen", "r"), "the reported length of a range off by one"),
         ("wire-rd-range", '"op":"at_end"', _flip("at_end", "r"), "an is-at-end observer flipped"),
         ("wire-rd-misc", '"api":"exact"', refuse_total_read, "a slice / mmap reader refuses an exact read that fits"),
+        ("wire-dio-short", '"op":"write_through"', torn_claimed_ok, "a write that lost its tail in a short sink reported as Ok(full length)"),
+        ("wire-dio-short", '"op":"write_through"', sink_not_prefix, "the bytes in a short sink are not a prefix of the encoding"),
+        ("wire-dio-short", '"ok":false', err_claims_more, "a failed write claims more bytes than the sink accepted"),
         ("wire-wr-", '"op":"seekw"', _bump("seekw", "r"), "the position reported by a repositioned writer off by one"),
         ("wire-wr-", '"op":"seekw"', corrupt_overwrite, "a repositioned write lands at the wrong place in the sink"),
         ("wire-wr-", '"op":"sink_pos"', _bump("sink_pos", "r"), "the position observer of a writer off by one"),
